@@ -1,4 +1,6 @@
 import Vanguard.Model.Run
+import Vanguard.Lemmas.CleanStream
+import Vanguard.Model.World
 /-!
   C01 — Messages arrive intact across every protocol, codec and compression pairing.
 
@@ -12,8 +14,14 @@ import Vanguard.Model.Run
   Whole-stream fidelity (count, order, no duplication, per-frame flags, all adapter paths) is the
   oracle `oracleC01`, evaluated on the implementation for every clean generated scenario against the
   scenario's ground truth (values sent by the client / by the backend), next to the byte-exact
-  comparison of model and implementation.  Partial: the induction over the message list of a whole
-  stream is not a theorem yet.
+  comparison of model and implementation.
+  **Whole request streams on the re-encoding path** (`backend_reads_exactly_the_messages`): for a request
+  body that is any sequence of legal frames within the limit, each of which can be converted, a backend
+  handler that reads with *any* buffer sizes (≥ 1) until the body ends is given exactly the
+  concatenation, in order, of the backend envelope and the converted form of every message - no
+  message dropped, duplicated, reordered, cut or merged - and then a clean `io.EOF` (`clean_stream` +
+  uniqueness of the stream + every `Read` a prefix step).
+  Partial: the same induction for the re-framing path and for the response direction is not a theorem.
 -/
 namespace Vanguard.C01
 open Vanguard
@@ -76,5 +84,34 @@ theorem undecodable_payload_is_error (w : World) (limit : Nat) (sameCompression 
     (cc sc data : Bytes) (h : w.decode cc data = none) :
     transformMsg w limit false sameCompression false zc zs cc sc data = .error .other := by
   unfold transformMsg; simp [h]
+
+/-- **The backend reads exactly the client's messages** (re-encoding path, every sequence of read sizes):
+    `fs` the client's frames (legal, within the limit), `out` the concatenation of their converted
+    forms with the backend's envelopes (`convertedAll`); a handler reading with sizes `ns` until the body
+    reports an error has been given exactly `out`, and the error is `io.EOF`. -/
+theorem backend_reads_exactly_the_messages (w : World) (pl : HandlePlan) (ce : Enveloper) (fs : List Frame)
+    (st : St) (ns : List Nat) (out o : Bytes) (e : Err)
+    (hprep : pl.clientReqNeedsPrep = false) (hce : st.op.clientEnveloper = some ce)
+    (hok : ∀ x ∈ fs, x.ok ce st.op.conf.maxMsg) (hd : st.src.data = framesBytes fs)
+    (he : st.src.ending ≠ .unexpected) (hconv : convertedAll w pl st ce fs = some out)
+    (hreads : Reads w pl st {} ns o e) : o = out ∧ e = .eof := by
+  have hs := clean_stream w pl ce hprep fs st false out hce hok hd he hconv
+  have hr := hreads.stream ⟨by decide, fun h => by simp at h⟩ rfl
+  exact hr.det hs
+
+/-- Non-vacuity (kernel-evaluated): gRPC-Web client (codec `raw`), gRPC backend (codec `hexa`), body =
+    the frame `00 00 00 00 02 | 07 08`: the client's enveloper is the gRPC-Web one, the frame is legal and
+    within the limit, the body is `framesBytes` of it, and its conversion is the backend envelope
+    `00 00 00 00 04` followed by `"0708"`. -/
+def dConf : MethodConf := { path := s "/p.S/M", streamType := .unary, noSideEffects := false, protocols := [.grpc], codecs := [hexaName], compressors := [], maxMsg := 100, maxGetURL := 100 }
+def dOp : Op := { conf := dConf, cform := .grpcWeb, sform := .grpc, reqMeta := {}, ccodec := rawName, scodec := hexaName, cReqComp := none, sReqComp := none, headers := [], contentLen := -1, query := [], reqMethod := sPOST }
+def dSt : St := { op := dOp, src := { chunks := [[0, 0, 0, 0, 2, 7], [8]], ending := .eof }, sink := {} }
+example : dSt.op.clientEnveloper = some .grpcWebClient := by decide +kernel
+example : (⟨0, 0, 0, 0, 2, [7, 8]⟩ : Frame).ok .grpcWebClient dSt.op.conf.maxMsg :=
+  ⟨{ length := 2 }, by decide, rfl, rfl, by decide +kernel⟩
+example : dSt.src.data = framesBytes [⟨0, 0, 0, 0, 2, [7, 8]⟩] := by decide +kernel
+example : convertedAll fakeWorld (dOp.plan fakeWorld) dSt .grpcWebClient [⟨0, 0, 0, 0, 2, [7, 8]⟩]
+    = some [0, 0, 0, 0, 4, 48, 55, 48, 56] := by decide +kernel
+example : (dOp.plan fakeWorld).clientReqNeedsPrep = false := by decide +kernel
 
 end Vanguard.C01
